@@ -110,6 +110,49 @@ Section AnyArithmetic.
     let '(st1, w1, e1) := run nb c1 st w in
     let '(st2, w2, e2) := run 0 c2 st1 w1 in (st2, w2, e1 ++ e2).
   Proof. exact (run_split R W add sub mul div logf ofnat trunc gtb geb is_zero logform true pdf inside rnd diff upd). Qed.
+
+  (* ---- histories of runs AND edits on one state object ----
+     ops: SampleDREAM runs interleaved with every public operation of TasmanianDREAM that changes the chain
+     state or the caches: setState (vector and callback overloads: the cache is marked invalid and the next
+     run re-evaluates it), setPDFvalues(vector) (the user asserts the values), setPDFvalues(pdf),
+     clearPDFvalues, clearHistory, expandHistory. *)
+  Notation run_ops := (run_ops R W add sub mul div logf ofnat trunc gtb geb is_zero logform true pdf inside rnd diff upd).
+  Notation coherent := (coherent R pdf).
+  Notation honest_ops := (honest_ops R W add sub mul div logf ofnat trunc gtb geb is_zero logform true pdf inside rnd diff upd).
+  Notation edits_inside := (edits_inside R W add sub mul div logf ofnat trunc gtb geb is_zero logform true pdf inside rnd diff upd).
+
+  (* The books stay coherent over every history: one cached value per chain, a cache marked valid holds the
+     density at the chains, every recorded probability is the density at the recorded sample -- provided each
+     setPDFvalues(vector) asserts the true values at the state it is applied to (honest_ops). *)
+  Theorem c15_history_coherent : forall ops st w, coherent st -> honest_ops ops st w ->
+    coherent (fst (fst (run_ops ops st w))).
+  Proof. exact (run_ops_coherent R W add sub mul div logf ofnat trunc gtb geb is_zero logform true pdf inside rnd diff upd). Qed.
+
+  (* ... in particular unconditionally for histories without setPDFvalues(vector) *)
+  Theorem c15_history_coherent_no_assert : forall ops st w, coherent st -> Forall (no_assert R) ops ->
+    coherent (fst (fst (run_ops ops st w))).
+  Proof. exact (run_ops_coherent_no_assert R W add sub mul div logf ofnat trunc gtb geb is_zero logform true pdf inside rnd diff upd). Qed.
+
+  (* Every chain and every recorded sample stays inside the domain over every history whose setState edits put
+     the chains inside. *)
+  Theorem c15_history_in_domain_ops : forall ops st w, indom R inside st -> edits_inside ops st w ->
+    indom R inside (fst (fst (run_ops ops st w))).
+  Proof. exact (run_ops_indom R W add sub mul div logf ofnat trunc gtb geb is_zero logform true pdf inside rnd diff upd). Qed.
+
+  (* What each edit does to the cache flag, and what the next run does about it: after an invalidating edit
+     the first callback of the next run is the batched pdf of the whole (new) state. *)
+  Theorem c15_edits_invalidate : forall st,
+    (forall cs, same_shape R st cs = true -> pdf_ready R (set_state R cs st) = false /\ chains R (set_state R cs st) = cs) /\
+    (forall cs, same_shape R st cs = false -> set_state R cs st = st) /\
+    (forall f, pdf_ready R (set_state_fn R f st) = false /\ chains R (set_state_fn R f st) = map f (chains R st)) /\
+    pdf_ready R (clear_pdf R st) = false /\
+    (forall vs, length vs = length (chains R st) -> pdf_ready R (set_pdf_values R vs st) = true /\ pdfv R (set_pdf_values R vs st) = vs) /\
+    pdf_ready R (clear_hist R st) = pdf_ready R st /\ hist R (clear_hist R st) = [] /\ pdfh R (clear_hist R st) = [] /\ acc R (clear_hist R st) = 0.
+  Proof. exact (edits_invalidate R). Qed.
+
+  Theorem c15_run_reevaluates_invalid_cache : forall nb nc st w, chains R st <> [] -> pdf_ready R st = false ->
+    exists e, snd (run nb nc st w) = EvPdf (chains R st) (map pdf (chains R st)) :: e.
+  Proof. exact (run_after_invalidation R W add sub mul div logf ofnat trunc gtb geb is_zero logform true pdf inside rnd diff upd). Qed.
 End AnyArithmetic.
 
 (* ---- exact rationals ---- *)
@@ -172,6 +215,18 @@ Example c15_example_nonvacuous :
    e1 <> [] /\ e2 <> [] /\ r = (st2, w2, e1 ++ e2)).
 Proof. vm_compute. repeat split; try reflexivity; try lia; discriminate. Qed.
 
+(* The hypothesis of c15_history_coherent is needed: a state whose cache is stale but still marked valid (what a
+   setState that forgets `init_values = false` produces: chains moved to 3 and 7/2, cached values those of the
+   chains 1 and 2) makes the next run record probabilities that are not the density at the recorded samples. *)
+Example c15_example_stale_cache_breaks_books :
+  let stale := mkds [[3%Q]; [(7 # 2)%Q]] [ex_pdf [1%Q]; ex_pdf [2%Q]] true [] [] 0 in
+  let st' := fst (fst (ex_run true ex_s 0 1 stale 0)) in
+  pdfh Q st' <> map ex_pdf (hist Q st') /\
+  (* whereas after the faithful edit (cache invalid) the books are right *)
+  (let st2 := fst (fst (ex_run true ex_s 0 1 (set_state_fn Q (fun _ => [3%Q]) (fst (fst (ex_run true ex_s 0 1 ex_st0 0)))) 0)) in
+   pdfh Q st2 = map ex_pdf (hist Q st2) /\ length (hist Q st2) = 6).
+Proof. vm_compute. split; [discriminate|split; reflexivity]. Qed.
+
 Print Assumptions c15_indices_in_range.
 Print Assumptions c15_pdf_only_inside.
 Print Assumptions c15_history_in_domain.
@@ -181,6 +236,11 @@ Print Assumptions c15_pdf_consistent.
 Print Assumptions c15_accept_rule.
 Print Assumptions c15_accept_rule_chain.
 Print Assumptions c15_split_runs.
+Print Assumptions c15_history_coherent.
+Print Assumptions c15_history_coherent_no_assert.
+Print Assumptions c15_history_in_domain_ops.
+Print Assumptions c15_edits_invalidate.
+Print Assumptions c15_run_reevaluates_invalid_cache.
 Print Assumptions c15_floor_meets_hypothesis.
 Print Assumptions c15_accept_rule_Q.
 Print Assumptions c15_indices_unfixed_refuted.
